@@ -318,6 +318,42 @@ let expand (o : string) (impl_step : string) : zop list * int =
     else failwith "dot: operand ranks not modelled"
   | _ -> ([parse_op o impl_step], 0)
 
+(* native:<t>  select:<t>:<axis>  tomat:<t>[:unsafe] — conversions out of a tensor.  The MODEL is
+   Native.v; the SPEC is the logical content cut into rows.  A refusal is within the letter of the
+   property only where the MODEL (the code as it is) refuses too: then the SPEC takes the refusal.
+   Result: (model status, spec status (None = no SPEC state), guard name). *)
+let conv_status dt (m : z store) (s : z sstate option) (o : string) : (string * string option * string) option =
+  let f = fields o in
+  match f.(0) with
+  | "native" | "select" | "tomat" ->
+    let t = nat_of_int (int_of_string f.(1)) in
+    let show (dims, rows) =
+      "rows:" ^ String.concat "." (List.map (fun d -> string_of_int (int_of_z d)) dims) ^ "|"
+      ^ String.concat ";" (List.map (fun r -> fvals dt r) rows) in
+    (match get_t m t with
+     | None -> Some ("panic", None, "other")
+     | Some d ->
+       let r = (match f.(0) with
+           | "native" -> native_conv m d
+           | "select" -> native_select m d (z_of_int (int_of_string f.(2)))
+           | _ -> to_mat64 m d) in
+       let ms = (match r with NRows (dims, rows) -> show (dims, rows) | NErr -> "err" | NPanic -> "panic") in
+       let guard =
+         if is_cm d.d_ap.ord then "col-major" else if d.d_old <> None then "pending-transpose"
+         else if d.d_view then "view" else "UNGUARDED" in
+       let ss = (match s with
+           | None -> None
+           | Some st ->
+             if r = NErr then Some "err" else begin
+               let (sh, l) = obs_spec Z0 st t in
+               Some (show (match f.(0) with
+                   | "native" -> spec_native sh l
+                   | "select" -> spec_select sh (z_of_int (int_of_string f.(2))) l
+                   | _ -> spec_to_mat64 sh l))
+             end) in
+       Some (ms, ss, guard))
+  | _ -> None
+
 let run_prog_gen (kept : bool) dt (prog : string) (impl : string) : outcome =
   (* dtype suffix @alt: the harness used the other API spelling of every operation that has one;
      the model and the SPEC are the same *)
@@ -340,6 +376,9 @@ let run_prog_gen (kept : bool) dt (prog : string) (impl : string) : outcome =
         cur_model := !m;
         let is_ret = (fields o).(0) = "ret" in
         if is_ret then Hashtbl.replace dead (int_of_string (fields o).(1)) ();
+        (* conversions out of a tensor (native.*, ToMat64): read-only, the outcome is a value *)
+        let conv = conv_status dt !m !s o in
+        let is_ret = is_ret || conv <> None in
         (* ReturnTensor: the tensor is gone; nothing else may change (MODEL and SPEC: a no-op) *)
         let (opl, rep) = if is_ret then ([ZBase (OUT (nat_of_int 0))] (* placeholder, not executed *), 0) else expand o istep in
         let op = List.nth opl rep in
@@ -382,8 +421,10 @@ let run_prog_gen (kept : bool) dt (prog : string) (impl : string) : outcome =
             | ZReduce (code, a, axes, _) when r <> RPanic ->
               ";ax=" ^ fzs (zreduce_axes_after before code a axes)
             | _ -> "") in
-        let mstr = (match r with
-            | RPanic -> "panic"
+        let mstr = (match r, conv with
+            | _, Some ("panic", _, _) -> "panic"
+            | _, Some (ms, _, _) -> ms ^ obs_model_str dt m'
+            | RPanic, _ -> "panic"
             | _ -> status_str dt r ^ axes_note ^ obs_model_str dt m'
                    ^ (if kept then slices_str !ps.p_slices else "")) in
         mout := mstr :: !mout;
@@ -410,15 +451,18 @@ let run_prog_gen (kept : bool) dt (prog : string) (impl : string) : outcome =
                         | Some (sk', _) -> cur := Some sk')) opl;
                match !cur with None -> None | Some sk -> Some (sk, !res)
              end in
-           (match spec_run () with
+           (match (match conv with
+               | Some (_, Some ss, _) -> Some (st, RUnit, Some ss)
+               | Some (_, None, _) -> None
+               | None -> (match spec_run () with Some (a, b) -> Some (a, b, None) | None -> None)) with
             | None -> s := None; sout := "?" :: !sout
-            | Some (st', RPanic) ->
+            | Some (st', RPanic, _) ->
               s := None; sout := "panic" :: !sout
-            | Some (st', r') ->
+            | Some (st', r', cs) ->
               s := Some st';
               (* SPEC: the caller's axes slice is left as it was passed *)
               let saxes = (match op with ZReduce (_, _, axes, _) -> ";ax=" ^ fzs axes | _ -> "") in
-              let sstr = status_str dt r' ^ saxes ^ obs_spec_str dt st'
+              let sstr = (match cs with Some ss -> ss | None -> status_str dt r') ^ saxes ^ obs_spec_str dt st'
                          ^ (if kept then slices_str !kept_in else "") in
               sout := sstr :: !sout;
               if !cls = "" && strip_model_only mstr <> sstr then begin
@@ -427,7 +471,7 @@ let run_prog_gen (kept : bool) dt (prog : string) (impl : string) : outcome =
                 let f = fields o in
                 let ids = match Hashtbl.find_opt extra_operands f.(0) with
                   | Some g -> g f | None -> operand_ids o in
-                let gn = gname (zguard before op) in
+                let gn = (match conv with Some (_, _, g) -> g | None -> gname (zguard before op)) in
                 let gn = if gn = "other" then "L" ^ String.concat "," (List.map (layout_tag before) ids) else gn in
                 cls := f.(0) ^ (if Array.length f > 1 && (f.(0) = "bin" || f.(0) = "bins" || f.(0) = "cmp" || f.(0) = "cmps" || f.(0) = "un" || f.(0) = "apply" || f.(0) = "reduce" || f.(0) = "reducefn" || f.(0) = "arg" || f.(0) = "lin") then "." ^ List.hd (String.split_on_char '.' f.(1)) else "") ^ ":" ^ gn
                        ^ ":" ^ symptom (strip_model_only mstr) sstr;
